@@ -82,8 +82,10 @@ class C04(Prop):
                 ops.append(["take", q, rng.choice([0, 1, 1, 2, 3]), name])
             elif r < 0.6 and slots:
                 s = rng.choice(slots)
-                ops.append([rng.choice(["drop", "park", "resume", "closeslot"]), s] +
-                           ([rng.choice([1, 2])] if False else []))
+                # an orphaned iterator is only ever finalised later, never advanced again: advancing a suspended
+                # evaluation after other evaluations touched the same nodes is two concurrently live iterators,
+                # which no property speaks about (DESIGN §3 rule 4)
+                ops.append([rng.choice(["drop", "park", "closeslot"]), s])
             elif r < 0.65:
                 ops.append(["collect"])
             elif r < 0.85:
